@@ -116,7 +116,7 @@ def _derives_from_tagify(v: Any, child: SObj, depth: int = 0) -> bool:
     return False
 
 
-def purity(ctx: Ctx, tagify_ok: bool, rule: str = "C08.pure") -> Ownership:
+def purity(ctx: Ctx, tagify_ok: bool, rule: str = "C08.pure", report_globals: bool = False) -> Ownership:
     O = Ownership(ctx.prog, skip_modules=("htmltools._jsx",))
     if tagify_ok:
         # established by C08.copy above: mutable elements of a tagify() result are fresh objects
@@ -134,8 +134,8 @@ def purity(ctx: Ctx, tagify_ok: bool, rule: str = "C08.pure") -> Ownership:
         sm = O.sums[q]
         where = f"{CORE}:{q}"
         bad = [(p, st) for p, sites in sm.mutates.items() for st in sites]
-        if not bad and not sm.globals:
-            ctx.ok(rule, f"{q} mutates nothing reachable from its receiver/arguments and no global", paths=sm.paths)
+        if not bad and not (sm.globals and report_globals):
+            ctx.ok(rule, f"{q} mutates nothing reachable from its receiver/arguments", paths=sm.paths)
             continue
         for p, st in bad:
             chain = " -> ".join((q,) + st.chain) if st.chain else q
@@ -143,7 +143,7 @@ def purity(ctx: Ctx, tagify_ok: bool, rule: str = "C08.pure") -> Ownership:
                      f"`{st.text()}` in {st.fn} modifies {st.target}, which is reachable from `{p}` of the read-only operation {q} "
                      f"(call path: {chain}{' -> ' + st.fn if st.fn != (st.chain[-1] if st.chain else q) else ''})",
                      witness=_PURE_WITNESS.get(st.fn), line=getattr(st.node, "lineno", None))
-        for st in sm.globals:
+        for st in (sm.globals if report_globals else []):
             ctx.fail(rule, f"{CORE}:{st.fn}", st.text(), f"{st.fn} writes module/process state ({st.target}) on the path of read-only operation {q}",
                      line=getattr(st.node, "lineno", None))
     return O
